@@ -11,6 +11,7 @@ plus "merge vs set chosen correctly". The known defect "the merge carries nothin
 classifier at the call boundary; the case is not evaluated further after it (everything later is its consequence)."""
 from __future__ import annotations
 
+import gc
 import random
 import re
 from collections import Counter
@@ -55,7 +56,7 @@ OPENERS = ("BlockNode", "WatchNode", "AlarmNode", "MacroNode")
 
 
 def plan(tier, seed):
-    n = 320 if tier == "quick" else 6400
+    n = 320 if tier == "quick" else 3200
     shards = 16 if tier == "quick" else 64
     return [{"seed": seed * 1000003 + 15485863 * i + 11, "n": n // shards, "step": 2 if tier == "quick" else 1,
              "max_depth": 3 if tier == "quick" else 4} for i in range(shards)]
@@ -156,7 +157,10 @@ class Run:
                     self.rep_cmds_seen.add(n.instruction_name)
 
     def close(self):
-        self.rig.close()
+        if self.rig is not None:
+            self.rig.close()
+            self.rig = None
+            gc.collect()   # finalise this run's interpreter generators now, not while the next rig records its TRACE
 
 
 def _indent(s: str) -> int:
